@@ -221,12 +221,14 @@ class GenePointerDict(GTFPointerDict):
         """ Getter """
         if __key in self._cache:
             return self._cache[__key]
+        # Resolve and load first so that an unknown key (KeyError) or a failed
+        # load leaves the FIFO and the cache untouched and consistent.
+        pointer:GenePointer = self.get_pointer(__key)
+        val = pointer.load()
         self._cached_keys.appendleft(__key)
         if len(self._cached_keys) > GENE_DICT_CACHE_SIZE:
             key_pop = self._cached_keys.pop()
             self._cache.pop(key_pop)
-        pointer:GenePointer = self.get_pointer(__key)
-        val = pointer.load()
         self._cache[__key] = val
         return val
 
@@ -253,13 +255,15 @@ class TranscriptPointerDict(GTFPointerDict):
         """ getter """
         if __key in self._cache:
             return self._cache[__key]
-        self._cached_keys.appendleft(__key)
-        if len(self._cached_keys) > TX_DICT_CACHE_SIZE:
-            key_pop = self._cached_keys.pop()
-            self._cache.pop(key_pop)
+        # Resolve and load first so that an unknown key (KeyError) or a failed
+        # load leaves the FIFO and the cache untouched and consistent.
         pointer:TranscriptPointer = self.get_pointer(__key)
         val = pointer.load()
         val.is_protein_coding = pointer.is_protein_coding is True
         val.transcript.source = pointer.source
+        self._cached_keys.appendleft(__key)
+        if len(self._cached_keys) > TX_DICT_CACHE_SIZE:
+            key_pop = self._cached_keys.pop()
+            self._cache.pop(key_pop)
         self._cache[__key] = val
         return val
